@@ -15,6 +15,7 @@ void
 kcfg_set_base(kcfg_t *c, int base) {
   memset(c, 0, sizeof(*c));
   c->base = base;
+  c->universe = -1;
   c->max_open_files = 1000;
   c->use_mmap = 1; /* lcdb default */
   if (base == 1) {
@@ -54,6 +55,7 @@ kcfg_parse(kcfg_t *c, const char *text) {
     else if (!strcmp(tok, "restart")) c->restart = (int)v;
     else if (!strcmp(tok, "l1")) c->l1 = (double)v;
     else if (!strcmp(tok, "raw")) c->raw = (int)v;
+    else if (!strcmp(tok, "uni")) c->universe = (int)v;
     else return 0;
   }
   return 1;
@@ -61,9 +63,11 @@ kcfg_parse(kcfg_t *c, const char *text) {
 
 void
 kcfg_print(const kcfg_t *c, char *buf, size_t n) {
-  snprintf(buf, n, "B%d,snappy=%d,bloom=%d,mmap=%d,reuse=%d,cache=%d,cmp=%d,paranoid=%d,mof=%d,wbuf=%zu,maxfile=%zu,block=%zu,restart=%d,l1=%.0f,raw=%d",
+  int k = snprintf(buf, n, "B%d,snappy=%d,bloom=%d,mmap=%d,reuse=%d,cache=%d,cmp=%d,paranoid=%d,mof=%d,wbuf=%zu,maxfile=%zu,block=%zu,restart=%d,l1=%.0f,raw=%d",
            c->base, c->snappy, c->bloom, c->use_mmap, c->reuse_logs, c->cache, c->cmp, c->paranoid,
            c->max_open_files, c->wbuf, c->maxfile, c->block, c->restart, c->l1, c->raw);
+  if (c->universe >= 0 && k > 0 && (size_t)k < n)
+    snprintf(buf + k, n - (size_t)k, ",uni=%d", c->universe);
 }
 
 static void
@@ -79,6 +83,35 @@ rev_compare(const ldb_comparator_t *cmp, const ldb_slice_t *x, const ldb_slice_t
   if (r == 0)
     r = (x->size < y->size) ? -1 : (x->size > y->size ? 1 : 0);
   return -r;
+}
+
+static int
+nocase_compare(const ldb_comparator_t *cmp, const ldb_slice_t *x, const ldb_slice_t *y) {
+  /* case-insensitive bytewise: byte-different keys can be EQUAL under this comparator */
+  size_t n = x->size < y->size ? x->size : y->size, i;
+  const unsigned char *a = x->data, *b = y->data;
+  (void)cmp;
+  for (i = 0; i < n; i++) {
+    int ca = (a[i] >= 'A' && a[i] <= 'Z') ? a[i] + 32 : a[i];
+    int cb = (b[i] >= 'A' && b[i] <= 'Z') ? b[i] + 32 : b[i];
+    if (ca != cb) return ca < cb ? -1 : 1;
+  }
+  return (x->size < y->size) ? -1 : (x->size > y->size ? 1 : 0);
+}
+
+int kv_rep_tab[KV_MAXKEYS + 2];
+
+/* equivalence classes of the key universe under the configured comparator: the model is
+ * indexed by the class representative (smallest equal index); m->spell[rep] remembers which
+ * spelling the newest write used (that is the key an iterator yields) */
+void
+kv_set_classes(const kcfg_t *c) {
+  int i, j;
+  for (i = 0; i < kv_nkeys + 2; i++) {
+    kv_rep_tab[i] = i;
+    for (j = 0; j < i; j++)
+      if (kv_cmp(c, kv_keys[i], kv_keylen[i], kv_keys[j], kv_keylen[j]) == 0) { kv_rep_tab[i] = j; break; }
+  }
 }
 
 void
@@ -109,7 +142,11 @@ kopt_init(kopt_t *o, const kcfg_t *c) {
   if (c->cmp == 1) {
     ldb_comparator_init(&o->cmp, "verif.ReverseBytewise", rev_compare, NULL);
     o->opt.comparator = &o->cmp;
+  } else if (c->cmp == 2) {
+    ldb_comparator_init(&o->cmp, "verif.CaseInsensitive", nocase_compare, NULL);
+    o->opt.comparator = &o->cmp;
   }
+  kv_set_classes(c);
   lcdb_verif_raw_options = c->raw;
   lcdb_verif_l1_bytes = c->l1;
 }
@@ -159,6 +196,10 @@ kv_set_universe(int which) {
     case 4:
       setk(i++, "a", 1); setk(i++, "b", 1);
       break;
+    case 5:
+      /* spellings that a case-insensitive comparator identifies */
+      setk(i++, "a", 1); setk(i++, "A", 1); setk(i++, "ab", 2); setk(i++, "B", 1); setk(i++, "b", 1);
+      break;
     default:
       setk(i++, "", 0); setk(i++, "a", 1); setk(i++, "ab", 2); setk(i++, "b", 1);
       break;
@@ -172,7 +213,12 @@ kv_set_universe(int which) {
 int
 kv_cmp(const kcfg_t *cfg, const void *a, size_t an, const void *b, size_t bn) {
   size_t n = an < bn ? an : bn;
-  int r = n ? memcmp(a, b, n) : 0;
+  int r;
+  if (cfg->cmp == 2) {
+    ldb_slice_t x = ldb_slice(a, an), y = ldb_slice(b, bn);
+    return nocase_compare(NULL, &x, &y);
+  }
+  r = n ? memcmp(a, b, n) : 0;
   if (r == 0)
     r = (an < bn) ? -1 : (an > bn ? 1 : 0);
   return cfg->cmp == 1 ? -r : r;
@@ -180,9 +226,18 @@ kv_cmp(const kcfg_t *cfg, const void *a, size_t an, const void *b, size_t bn) {
 
 int
 kv_order(const kcfg_t *c, int *order) {
-  int i, j;
+  int i, j, n = 0;
+  kv_set_classes(c);
   for (i = 0; i < kv_nkeys; i++)
-    order[i] = i;
+    if (kv_rep_tab[i] == i)
+      order[n++] = i;
+  return kv_order_n(c, order, n);
+}
+
+int
+kv_order_n(const kcfg_t *c, int *order, int kv_nkeys_) {
+  int i, j;
+#define kv_nkeys kv_nkeys_
   for (i = 1; i < kv_nkeys; i++)
     for (j = i; j > 0; j--) {
       int a = order[j - 1], b = order[j];
@@ -191,6 +246,7 @@ kv_order(const kcfg_t *c, int *order) {
       } else break;
     }
   return kv_nkeys;
+#undef kv_nkeys
 }
 
 size_t
@@ -256,7 +312,7 @@ kmodel_hash(const kmodel_t *m) {
   uint64_t h = 17;
   int i;
   for (i = 0; i < kv_nkeys; i++)
-    h = vh_mix(h, ((uint64_t)m->vid[i] << 8) | m->sz[i]);
+    h = vh_mix(h, ((uint64_t)m->vid[i] << 16) | ((uint64_t)m->spell[i] << 8) | m->sz[i]);
   return h;
 }
 
@@ -473,30 +529,36 @@ bigbatch_upd(int i, kupd_t *u) {
   u->sz = (i % 7 == 0) ? VS_1K : VS_SHORT;
 }
 
+#define R(k) (kv_rep_tab[(k)])
+
 void
 kh_model_apply(kmodel_t *m, const kop_t *op, int opidx) {
   int j;
   switch (op->kind) {
     case OP_PUT:
-      m->vid[op->u[0].key] = kh_vid(opidx, 0);
-      m->sz[op->u[0].key] = op->u[0].sz;
+      m->vid[R(op->u[0].key)] = kh_vid(opidx, 0);
+      m->sz[R(op->u[0].key)] = op->u[0].sz;
+      m->spell[R(op->u[0].key)] = op->u[0].key;
       break;
     case OP_DEL:
-      m->vid[op->u[0].key] = 0;
-      m->sz[op->u[0].key] = 0;
+      m->vid[R(op->u[0].key)] = 0;
+      m->sz[R(op->u[0].key)] = 0;
+      m->spell[R(op->u[0].key)] = 0;
       break;
     case OP_BATCH:
       for (j = 0; j < op->n; j++) {
-        if (op->u[j].del) { m->vid[op->u[j].key] = 0; m->sz[op->u[j].key] = 0; }
-        else { m->vid[op->u[j].key] = kh_vid(opidx, j); m->sz[op->u[j].key] = op->u[j].sz; }
+        int r = R(op->u[j].key);
+        if (op->u[j].del) { m->vid[r] = 0; m->sz[r] = 0; m->spell[r] = 0; }
+        else { m->vid[r] = kh_vid(opidx, j); m->sz[r] = op->u[j].sz; m->spell[r] = op->u[j].key; }
       }
       break;
     case OP_BIGBATCH:
       for (j = 0; j < op->n * 100; j++) {
         kupd_t u;
         bigbatch_upd(j, &u);
-        m->vid[u.key] = kh_vid(opidx, 0);
-        m->sz[u.key] = u.sz;
+        m->vid[R(u.key)] = kh_vid(opidx, 0);
+        m->sz[R(u.key)] = u.sz;
+        m->spell[R(u.key)] = u.key;
       }
       break;
     default: break;
@@ -638,7 +700,7 @@ kh_apply(khist_t *h, const kop_t *op) {
       ldb_slice_t k = ldb_slice(kv_keys[op->idx], kv_keylen[op->idx]);
       for (i = 0; i < 100; i++) {
         int r = ldb_has(h->db, &k, NULL);
-        int want = h->model.vid[op->idx] ? LDB_OK : LDB_NOTFOUND;
+        int want = h->model.vid[R(op->idx)] ? LDB_OK : LDB_NOTFOUND;
         if (r != want)
           rc = r ? r : LDB_INVALID;
       }
@@ -694,8 +756,8 @@ ko_gets(khist_t *h, const kmodel_t *m, const ldb_snapshot_t *snap, int verify) {
   for (k = 0; k < kv_nkeys + 2; k++) {
     ldb_slice_t key = ldb_slice(kv_keys[k], kv_keylen[k]);
     ldb_slice_t val;
-    int vid = k < kv_nkeys ? m->vid[k] : 0;
-    int sz = k < kv_nkeys ? m->sz[k] : 0;
+    int vid = (k < kv_nkeys || R(k) < kv_nkeys) ? m->vid[R(k)] : 0;
+    int sz = (k < kv_nkeys || R(k) < kv_nkeys) ? m->sz[R(k)] : 0;
     int rc = ldb_get(h->db, &key, &val, &ro);
     int rh;
     char kn[64], vd[64];
@@ -740,8 +802,9 @@ static int
 check_entry(khist_t *h, ldb_iter_t *it, const kmodel_t *m, int k, const char *dir) {
   ldb_slice_t key = ldb_iter_key(it), val = ldb_iter_value(it);
   char kn[64], vd[64];
-  keyname(kn, sizeof(kn), k);
-  if (key.size != kv_keylen[k] || (key.size && memcmp(key.data, kv_keys[k], key.size) != 0)) {
+  int sp = m->spell[k];   /* the spelling used by the newest write is what an iterator yields */
+  keyname(kn, sizeof(kn), sp);
+  if (key.size != kv_keylen[sp] || (key.size && memcmp(key.data, kv_keys[sp], key.size) != 0)) {
     describe_val(vd, sizeof(vd), key.data, key.size);
     snprintf(h->err, sizeof(h->err), "%s scan: at expected key %s the iterator is on key %s", dir, kn, vd);
     return 0;
@@ -849,7 +912,7 @@ kcur_init(kcursor_t *c, const kmodel_t *m, const kcfg_t *cfg) {
   c->n = 0;
   for (i = 0; i < n; i++)
     if (m->vid[order[i]])
-      c->keys[c->n++] = order[i];
+      c->keys[c->n++] = m->spell[order[i]];
   c->pos = -1;
 }
 
